@@ -106,12 +106,19 @@ RunRecord run_driver(const sim::Json& sc) {
         // (same exception mapping as mp::RunBackendApp)
         try {
           mp::BackendApp app(CreateMiniBackend());
-          app.GetBackend().GetCallbacks() = mp::BasicBackend::Callbacks{};
           long runs = sc["mini_runs"].as_int(1);
           for (long q = 0; q < runs; ++q) {
             g.event("MINI_RUN " + std::to_string(q));
             rec.ret = app.Run(argv.data());
           }
+        } catch (const mp::Error& e) { fmt::print(stderr, "Error: {}\n", e.what()); rec.ret = e.exit_code(); }
+        catch (const std::exception& e) { fmt::print(stderr, "Error: {}\n", e.what()); rec.ret = EXIT_FAILURE; }
+      } else if (sc["driver"].as_str() == "direct") {
+        // a driver whose main() uses the application class itself instead of the RunBackendApp() helper
+        // (same exception mapping; nothing but construction and Run)
+        try {
+          mp::BackendApp app(CreateSimBackend());
+          rec.ret = app.Run(argv.data());
         } catch (const mp::Error& e) { fmt::print(stderr, "Error: {}\n", e.what()); rec.ret = e.exit_code(); }
         catch (const std::exception& e) { fmt::print(stderr, "Error: {}\n", e.what()); rec.ret = EXIT_FAILURE; }
       } else
